@@ -8,9 +8,9 @@ FLAG = {"remove_measurements": "has_measurements", "remove_barriers": "has_barri
 
 
 def make_cases(rnd, tier, progs):
-    n = 240 if tier == "quick" else 3000
+    n = 500 if tier == "quick" else 8000
     # measurements / barriers at every nesting position (loops, conditionals, subroutines)
-    ps = progs(60 if tier == "quick" else 300, dict(gates=4, measure=5, reset=1, barrier=5, if_meas=4, for_=4, call=3, if_ct=2))
+    ps = progs(120 if tier == "quick" else 600, dict(gates=4, measure=5, reset=1, barrier=5, if_meas=4, for_=4, call=3, if_ct=2))
     out = []
     for k in range(n):
         src = ps[k % len(ps)]
@@ -32,6 +32,9 @@ def make_cases(rnd, tier, progs):
             body.append((tgt, "unroll"))
         hist, nobs = modcheck.hist_with_obs(rnd, body, nmod)
         out.append(dict(src=src, hist=hist, nobs=nobs, family="remove-kind"))
+    out += modcheck.enumerated(rnd, REMOVERS, "removal-on-every-structured-program",
+                               before=((), ("unroll",), ("has_measurements", "has_barriers")),
+                               after=(("has_measurements", "has_barriers", "depth"), ("unroll", "has_measurements", "has_barriers"), ("depth", "unroll", "depth")))
     return out
 
 
